@@ -76,6 +76,14 @@ v_out() { # stdout | file
   esac
 }
 v_stamp() { printf %s "$RV_ACC" | redo-stamp; }
+v_usermod() { # the "user" replaces the target by hand while its build runs (only while the harness flag exists)
+  _f=$(printf %s "$RV_T" | tr / _)
+  if [ -e "$RV_CTL/usermod.$_f" ]; then
+    printf 'concurrent %s\n' "$RV_T" > "$RV_A1.rvnew" && mv "$RV_A1.rvnew" "$RV_A1"
+    rm -f "$RV_CTL/usermod.$_f"
+    rv_tr "U|$RV_T|$$"
+  fi
+}
 v_stampsrc() { case "$(cat "$1" 2>/dev/null)" in *" 1") ;; *) v_stamp ;; esac; }
 v_stampif() { if [ -e "$RV_CTL/stampflag.$1" ]; then v_stamp; fi; }
 v_end() { v_exit "${RV_SOFT:-0}"; }
